@@ -224,7 +224,7 @@ def pollU (u : UP) (inj : BSt → Nat → BSt) (s : BSt) : BSt :=
     else batchLoopU inj (totalBuffered s1 + 64) s1
   else
     let s2 := inj s1 5
-    let s3 := flushGate inj s2 s2.cfg.flushInterval      -- as `poll` (flush interval; F33 pre-erase flush below)
+    let s3 := flushGate inj s2 s2.cfg.flushInterval
     let r := allEmptyU s3
     if r.2 then cleanupLoggersU inj (preEraseFlush (cleanupContextsU r.1)) else r.1
 
